@@ -1,6 +1,7 @@
 import NessaiVerif.Model.OrderedSamples
 import NessaiVerif.Proofs.Ordered
 import NessaiVerif.Gen.OrderedTx
+import NessaiVerif.Gen.OrderedOps
 /-
 C04 — the INS sample store stays sorted, partitioned and aligned under all updates.
 Property theorems only; lemmas are in Proofs/{InsertMany,MergeInsert,Ordered}.lean.
@@ -293,5 +294,98 @@ theorem add_to_nested_samples_source_eq_model (nested idxs : List Nat) :
     Gen.OrderedTx.add_to_nested_samples nested idxs = .ok (addToNested nested idxs) := rfl
 
 example := add_to_nested_samples_source_eq_model [0, 2, 5] [1, 3]
+
+/-! ## The four operations of the source, regenerated on every run, ARE the model's operations
+
+`Gen/OrderedOps.lean` is produced by `harness/pyidx2lean.py` from the current text of `OrderedSamples.add_initial_samples`,
+`add_samples`, `remove_samples` and `finalise` (statement by statement; an Optional value is unwrapped, with `TypeError`, exactly
+where the code needs a value).  On every state whose `samples` is `None` only if `live_points_indices` is (every reachable
+state: `add_initial_samples` sets both) the generated definitions compute the fields of the model's operations — so
+`store_invariant` and the observational theorems above are about the source as it is now. -/
+
+/-- the four mutable fields, in the order the generated definitions return them -/
+def fieldsOf (s : OS) : Option (List Smp) × List Nat × Option (List Nat) × List Nat := (s.samples, s.rows, s.live, s.nested)
+
+theorem zip_map_fst_snd {α β : Type} (b : List (α × β)) : (b.map (·.1)).zip (b.map (·.2)) = b := by
+  induction b with
+  | nil => rfl
+  | cons x xs ih => simp [ih]
+
+theorem add_initial_samples_source_eq_model (s : OS) (b : List (Smp × Nat)) :
+    Gen.OrderedOps.add_initial_samples s.samples s.rows s.live s.nested s.thr s.strict s.replAll (b.map (·.1)) (b.map (·.2)) =
+      .ok (fieldsOf (addInitial s b)) := by
+  simp [Gen.OrderedOps.add_initial_samples, addInitial, fieldsOf, zip_map_fst_snd]
+
+theorem remove_samples_source_eq_model (s : OS) (hs : s.samples = none → s.live = none) :
+    Gen.OrderedOps.remove_samples s.samples s.rows s.live s.nested s.thr s.strict s.replAll =
+      (removeSamples s).map (fun p => (p.1.samples, p.1.rows, p.1.live, p.1.nested, p.2)) := by
+  unfold Gen.OrderedOps.remove_samples removeSamples
+  cases hl : s.live with
+  | none => cases s.samples <;> cases s.replAll <;> simp [Except.map]
+  | some l =>
+    cases hsm : s.samples with
+    | none => rw [hs hsm] at hl; cases hl
+    | some smp =>
+      cases s.replAll
+      · simp only [Bool.false_eq_true, if_false, countBelowOpt, keys, fancySmp, List.map_map, List.isEmpty_map]
+        by_cases he : l.isEmpty
+        · simp [he, Except.map, Function.comp_def]
+        · cases s.thr <;> simp [he, Except.map, Function.comp_def]
+      · simp [Except.map]
+
+theorem finalise_source_eq_model (s : OS) (hs : s.samples = none → s.live = none) :
+    Gen.OrderedOps.finalise s.samples s.rows s.live s.nested s.thr s.strict s.replAll =
+      (Ordered.finalise s).map fieldsOf := by
+  unfold Gen.OrderedOps.finalise Ordered.finalise
+  cases hl : s.live with
+  | none => cases s.samples <;> simp [Except.map]
+  | some l =>
+    cases hsm : s.samples with
+    | none => rw [hs hsm] at hl; cases hl
+    | some smp => simp [Except.map, fieldsOf, hsm]
+
+theorem countBelow_le (t : Int) (ks : List Int) : countBelow t ks ≤ ks.length := by
+  unfold countBelow; exact List.length_filter_le _ _
+
+theorem take_drop_range (m n : Nat) (h : n ≤ m) :
+    (List.range m).take n = List.range n ∧ (List.range m).drop n = List.range' n (m - n) := by
+  constructor
+  · rw [List.take_range, Nat.min_eq_left h]
+  · rw [List.range_eq_range', List.drop_range']; simp
+
+theorem add_samples_source_eq_model (s : OS) (b : List (Smp × Nat)) :
+    Gen.OrderedOps.add_samples s.samples s.rows s.live s.nested s.thr s.strict s.replAll (b.map (·.1)) (b.map (·.2)) =
+      (addSamples s b).map fieldsOf := by
+  unfold Gen.OrderedOps.add_samples addSamples
+  cases hsm : s.samples with
+  | none => simp [Except.map]
+  | some old =>
+    simp only [zip_map_fst_snd, keys, List.map_map, Function.comp_def]
+    generalize sortBatch b = sb
+    generalize List.map (fun x => ssl (List.map (fun x => x.key) old) x.1.key) sb = idx
+    generalize insertMany old idx (List.map (fun x => x.1) sb) 0 = smp'
+    generalize insertMany s.rows idx (List.map (fun x => x.2) sb) 0 = rows'
+    cases hst : s.strict
+    · simp only [Bool.false_eq_true, if_false, inverseIndices, fancy]
+      generalize shiftIdx idx 0 = ni
+      by_cases he : ni.isEmpty
+      · simp [he, Except.map]
+      · simp only [he, Bool.false_eq_true, if_false]
+        generalize complement smp'.length ni = oi
+        by_cases hlen : oi.length = smp'.length - sb.length
+        · cases hl : s.live <;> simp [Except.map, fieldsOf, hlen]
+        · cases hl : s.live <;> simp [Except.map, fieldsOf, hlen]
+    · simp only [if_true, countBelowOpt]
+      by_cases he : smp'.isEmpty
+      · have hl0 : smp'.length = 0 := by simpa using he
+        simp [he, Except.map, fieldsOf, hl0]
+      · have he' : (List.map (fun x => x.key) smp').isEmpty = false := by simpa using he
+        cases ht : s.thr with
+        | none => simp [he, he', Except.map]
+        | some t =>
+          have hle : countBelow t (List.map (fun x => x.key) smp') ≤ smp'.length := by
+            simpa using countBelow_le t (List.map (fun x => x.key) smp')
+          obtain ⟨h1, h2⟩ := take_drop_range smp'.length _ hle
+          simp [he, he', Except.map, fieldsOf, h1, h2]
 
 end NessaiVerif.C04
